@@ -63,8 +63,8 @@ def run_case(case):
     mp = (im * dx, jm * dy) if fp else (0.0, 0.0)
     bg = 0.0 if fp else float(rng.choice([0.0, 2.5]))
     _, c0, f0 = run(St, q0, levels, footprint=fp, meas_pt=mp, srf_bg_conc=bg)
-    cs, fs = solve.surface_fields(St, q0, footprint=fp, meas_pt=mp, precision=prec)
-    floorF = {"conc": float(np.max(np.abs(np.fft.fft2(cs)))), "flx": float(np.max(np.abs(np.fft.fft2(fs))))}
+    ac, af = solve.amp_scales(St, q0, footprint=fp)
+    floorF = {"conc": ac, "flx": af}  # |fft2 coefficient| >= the field amplitude for any single-mode content
     mask = solve.spectrum_mask(ny, nx, St["modes"][1], St["modes"][0])
     for axis, nm in ((1, "x"), (0, "y")):
         Sm = dict(St)
